@@ -1000,6 +1000,120 @@ def render_source_paragraphs(specs):
     return out
 
 
+# ----- words wrapped in inline elements of another white-space (a fixed family, run first)
+
+SPAN_WS_WORDS = 'aaaa bbbb cc ddddd ee fff gggg hh iiiii jj'.split()
+
+
+def span_ws_family():
+    """A normal paragraph in which single words are wrapped in `<span style="white-space: nowrap | pre">` (or the whole
+    paragraph is nowrap and a word is wrapped in a normal span): the boundaries between boxes are at the spaces,
+    which stay outside the spans and keep the white-space of the block, so the lines are those of the plain text.
+    Deterministic: every word position x both values x block widths 5..13em."""
+    fs = Fraction(10)
+    for span_ws, block_ws in (('nowrap', 'normal'), ('pre', 'normal'), ('normal', 'nowrap'), ('nowrap', 'pre-line')):
+        for wrapped in [(i,) for i in range(len(SPAN_WS_WORDS))] + [(1, 2), (3, 5, 6), (0, 9)]:
+            for em in (5, 6, 7, 8, 9, 11, 13):
+                yield {'words': SPAN_WS_WORDS, 'wrapped': wrapped, 'span_ws': span_ws, 'ws': block_ws, 'fs': fs,
+                       'width': em * fs, 'text': ' '.join(SPAN_WS_WORDS), 'wb': 'normal', 'ow': 'normal', 'lh': 'normal',
+                       'indent': Fraction(0), 'all': 'start', 'last': 'auto', 'rtl': False, 'ml': Fraction(0)}
+
+
+def span_ws_html(spec):
+    words = [f'<span style="white-space:{spec["span_ws"]}">{w}</span>' if i in spec['wrapped'] else w
+             for i, w in enumerate(spec['words'])]
+    return (f'<p style="white-space:{spec["ws"]};font-size:{float(spec["fs"])}px;width:{float(spec["width"])}px">'
+            f'{" ".join(words)}</p>')
+
+
+def render_span_ws(specs):
+    """-> list of (spec, block, canonical lines in the form of `real_lines`: the fragments of a line joined)."""
+    html = f'<style>{PAGE_CSS}</style>' + ''.join(span_ws_html(s) for s in specs)
+    _, pages = ic.pipeline_trees(html, enc)
+    laid = ic.laid_out_paragraphs(pages)
+    if len(laid) != len(specs):
+        raise RuntimeError(f'paragraph count: {len(specs)} specs, {len(laid)} after layout')
+    out = []
+    for spec, (block, lines) in zip(specs, laid):
+        canon = []
+        for line in lines:
+            texts = [b for b in line.descendants() if hasattr(b, 'text')]
+            child = 'none'
+            if texts:
+                child = [enc(''.join(b.text for b in texts)), snap(texts[0].position_x),
+                         snap(sum(Fraction(b.width) for b in texts))]
+            canon.append([snap(line.position_x), snap(line.position_y), snap(line.width), snap(line.height), child])
+        out.append((spec, block, canon))
+    return out
+
+
+# ----- lines taller than the strut next to floats (the second pass of get_next_linebox; a fixed family)
+
+TALL_WORDS = 'aaaa bbb cc ddddd ee fff gggg hh iii jj'
+
+
+def tall_family():
+    """Block line-height 10px (the strut), the whole text in a span of line-height 30px: every line is higher than
+    the height the line box is first placed with, so get_next_linebox asks avoid_collisions again with the real line
+    and lays the line out again where it is moved to.  Floats of different widths at different heights."""
+    fs = Fraction(10)
+    for width in (100, 120, 150):
+        for first, second in (((20, 15), (50, 40)), ((30, 12), (60, 25)), ((10, 25), (40, 20)), ((50, 15), (20, 40))):
+            for side in ('left', 'right'):
+                for align in ('start', 'end'):
+                    yield {'fs': fs, 'width': Fraction(width), 'floats': (first, second), 'side': side, 'ws': 'normal',
+                           'all': align, 'last': 'auto', 'indent': Fraction(0), 'strut': Fraction(10), 'lineh': Fraction(30)}
+
+
+def tall_html(spec):
+    (w1, h1), (w2, h2) = spec['floats']
+    side = spec['side']
+    floats = (f'<div style="float:{side};width:{w1}px;height:{h1}px"></div>'
+              f'<div style="float:{side};clear:{side};width:{w2}px;height:{h2}px"></div>')
+    return (f'<div style="width:{float(spec["width"])}px;font-size:{float(spec["fs"])}px;line-height:{float(spec["strut"])}px">'
+            f'{floats}<p style="text-align-all:{spec["all"]}"><span style="line-height:{float(spec["lineh"])}px">'
+            f'{TALL_WORDS}</span></p></div>')
+
+
+def render_tall_doc(spec):
+    """-> (protocol line, impl, shapes, geometry, nodes) like render_float_inline_doc, for the `ftpara` command."""
+    rendered = render_float_inline_doc(dict(spec), tall_html(spec))
+    if rendered is None or rendered[3] is None:
+        return rendered
+    _, impl, shapes, geometry, nodes = rendered
+    proto = sx.line('ftpara', shapes, nodes, spec['ws'], 'normal', 'normal', spec['fs'], spec['strut'], spec['lineh'],
+                    geometry[0], geometry[2], spec['indent'], spec['all'], spec['last'], geometry[1])
+    return proto, impl, shapes, geometry, nodes
+
+
+def underfilled_violation(shapes, geometry, wire, fs):
+    """Greedy next to floats: a line that is followed by another one could not hold the first word of that next line
+    in the width left between the floats over its own height. -> (what, None) | None"""
+    if wire.startswith('err:'):
+        return f'layout raised {wire[4:]}', None
+    cbx, _, width = geometry
+    lines = sx.loads_line(wire)[0]
+    texts = [''.join(frag_text(f) for f in line[4]).strip(' ') for line in lines]
+    for i in range(len(lines) - 1):
+        lx, ly, lw, lh = (Fraction(v) for v in lines[i][:4])
+        nxt = texts[i + 1].split(' ')[0] if texts[i + 1] else ''
+        if not nxt or not texts[i] or lh == 0:
+            continue
+        left, right = Fraction(cbx), Fraction(cbx) + Fraction(width)
+        for sx_, sy, smw, smh, side in shapes:
+            if sy < ly + lh and ly < sy + smh:
+                if side == 'left':
+                    left = max(left, sx_ + smw)
+                else:
+                    right = min(right, sx_)
+        need = lw + (1 + len(nxt)) * Fraction(fs)
+        if need <= right - left:
+            return (f'line {i} {texts[i]!r} ({float(lw)} wide at y=[{float(ly)}, {float(ly + lh)}]) is followed by '
+                    f'{nxt!r} on the next line although {float(need)} fits in the {float(right - left)} left between '
+                    f'the floats there'), None
+    return None
+
+
 def render_inline_paragraphs(specs):
     """-> list of (spec, node wire | None, block, canonical lines)."""
     html = f'<style>{PAGE_CSS}</style>' + ''.join(inline_para_html(s) for s in specs)
@@ -1853,6 +1967,7 @@ class C09(PropCheck):
         docs.quiet()
         ic.env()
         self._sec_regressions(run)
+        self._sec_span_ws(run)
         self._sec_pango(run)
         self._sec_sfl(run)
         self._sec_stb(run)
@@ -1865,6 +1980,7 @@ class C09(PropCheck):
         self._sec_preferred(run)
         self._sec_floats(run)
         self._sec_float_inline(run)
+        self._sec_tall(run)
         self._sec_source(run)
 
     def _sec_regressions(self, run):
@@ -1907,6 +2023,24 @@ class C09(PropCheck):
         for html, index, proto, impl in render_vertical_lines(REGRESSION_VERTICAL):
             sec.add(proto, impl, meta={'as': 'line-vertical', 'html': html, 'line': index, 'vertical': True},
                     nontrivial=True, tags=['vertical-align-top-bottom-subtree'])
+
+    def _sec_span_ws(self, run):
+        sec = run.section(
+            'span-white-space',
+            'a fixed family, run first: paragraphs in which single words are wrapped in inline elements of another '
+            'white-space (nowrap / pre spans in a normal or pre-line block, normal spans in a nowrap block), the spaces '
+            'staying outside the spans: the break opportunity between two children belongs to the box that holds the '
+            'boundary, so the lines (x, y, width, height, joined text) are those of the plain paragraph - compared with '
+            'the model of iter_line_boxes on the plain text; non-trivial = at least two lines')
+        specs = list(span_ws_family())
+        for i in range(0, len(specs), 14):
+            for spec, block, canon in render_span_ws(specs[i:i + 14]):
+                cbx, y0, width = block.content_box_x(), block.content_box_y(), block.width
+                sec.add(para_line(spec, spec['text'], cbx, y0, width), sx.dumps(canon),
+                        meta={'as': 'paragraph-doc', 'span_ws': True, 'spec': spec_json(spec), 'text': spec['text'],
+                              'cbx': str(Fraction(cbx)), 'y': str(Fraction(y0)), 'width': str(Fraction(width)),
+                              'html': span_ws_html(spec)},
+                        nontrivial=len(canon) >= 2, tags=[f'span-{spec["span_ws"]}-in-{spec["ws"]}'])
 
     def _sec_pango(self, run):
         sec = run.section(
@@ -2142,6 +2276,27 @@ class C09(PropCheck):
                     'wider-than-gap', 'text-indent', 'layout-error']
         run.extra['float_lines_cases_never_hit'] = [t for t in expected if not sec.tags.get(t)]
 
+    def _sec_tall(self, run):
+        sec = run.section(
+            'float-tall-lines',
+            'a fixed family: a block of line-height 10px whose text is in a span of line-height 30px, after two floats '
+            'of different widths at different heights: every line is higher than the strut it is first placed with, so '
+            'get_next_linebox lays it out again where avoid_collisions moves the real line, in the width available '
+            'there (Model/LineFloatsInline.tallLoop, the `while True` loop); per line and per box x, y, width, text; '
+            'non-trivial = some line is beside a float')
+        for spec in tall_family():
+            rendered = render_tall_doc(spec)
+            if rendered is None:
+                continue
+            proto, impl, shapes, geometry, nodes = rendered
+            beside = False
+            if geometry is not None:
+                for lx, ly, lw, lh, frags in sx.loads_line(impl)[0]:
+                    ly, lh = Fraction(ly), Fraction(lh)
+                    beside = beside or any(s_[1] < ly + lh and ly < s_[1] + s_[3] for s_ in shapes)
+            sec.add(proto, impl, meta={'html': tall_html(spec), 'float_tall': True, 'spec': float_inline_json(spec)},
+                    nontrivial=beside, tags=[spec['side'], f'align-{spec["all"]}'])
+
     def _sec_source(self, run):
         sec_nodes = run.section(
             'source-nodes',
@@ -2327,7 +2482,7 @@ class C09(PropCheck):
 
     def judge(self, d):
         meta = d.get('meta') or {}
-        if d['section'] == 'regressions' and meta.get('as'):
+        if d['section'] in ('regressions', 'span-white-space') and meta.get('as'):
             d = dict(d, section=meta['as'])
         if d['section'] == 'split-first-line':
             v = sfl_violation(meta, d['impl'])
@@ -2347,6 +2502,17 @@ class C09(PropCheck):
             v = float_violation(shapes, geometry, canon_from_wire(d['impl']), parsed[3], parsed[10], parsed[11:13])
             return unexplained(v, lambda: float_violation(shapes, geometry, canon_from_wire(d['model']), parsed[3],
                                                           parsed[10], parsed[11:13]))
+        if d['section'] == 'float-tall-lines':
+            if d['impl'].startswith('err:'):
+                return f'layout raised {d["impl"][4:]} on {meta.get("html")}'
+            parsed = sx.loads_line(d['line'])
+            shapes = [[Fraction(a), Fraction(b), Fraction(c), Fraction(e), side] for a, b, c, e, side in parsed[1]]
+            geometry = (Fraction(parsed[9]), Fraction(parsed[14]), Fraction(parsed[10]))
+            fs = Fraction(parsed[6])
+            return (beyond_model(float_inline_violation(shapes, geometry, d['impl'], meta['spec']),
+                                 lambda: float_inline_violation(shapes, geometry, d['model'], meta['spec'])) or
+                    beyond_model(underfilled_violation(shapes, geometry, d['impl'], fs),
+                                 lambda: underfilled_violation(shapes, geometry, d['model'], fs)))
         if d['section'] == 'float-inline-lines':
             if d['impl'].startswith('err:'):
                 return f'layout raised {d["impl"][4:]} on {meta.get("html")}'
@@ -2561,6 +2727,24 @@ class C09(PropCheck):
             return v[0] if v else None
         meta = inp.get('meta') or {}
         section = inp.get('section')
+        if meta.get('span_ws'):
+            spec = spec_unjson(meta['spec'])
+            (spec, block, canon), = render_span_ws([spec])
+            canon = canon_from_wire(sx.dumps(canon))
+            v = para_violation(spec, spec['text'], block.content_box_x(), block.content_box_y(), block.width, canon)
+            return v[0] if v else None
+        if meta.get('float_tall'):
+            spec = dict(float_inline_unjson(meta['spec']), strut=Fraction(10), lineh=Fraction(30))
+            rendered = render_float_inline_doc(spec, meta['html'])
+            if rendered is None or rendered[3] is None:
+                return None
+            _, impl, shapes, geometry, nodes = rendered
+            proto = sx.line('ftpara', shapes, nodes, spec['ws'], 'normal', 'normal', spec['fs'], spec['strut'],
+                            spec['lineh'], geometry[0], geometry[2], spec['indent'], spec['all'], spec['last'], geometry[1])
+            return (beyond_model(float_inline_violation(shapes, geometry, impl, spec),
+                                 lambda: float_inline_violation(shapes, geometry, self.model_output(proto), spec)) or
+                    beyond_model(underfilled_violation(shapes, geometry, impl, spec['fs']),
+                                 lambda: underfilled_violation(shapes, geometry, self.model_output(proto), spec['fs'])))
         if meta.get('float_inline'):
             spec = float_inline_unjson(meta['spec'])
             rendered = render_float_inline_doc(spec, meta['html'])
